@@ -238,6 +238,16 @@ def m_c34(cl):
     return False
 
 
+def m_c06(cl):
+    """A request refused for insufficient funds is recorded as accepted."""
+    for ln in cl:
+        if not ln.get("reset") and not ln.get("aux") and not ln.get("conc") and ln["op"]["k"] == "create" \
+                and ln["res"]["err"] == "insufficient":
+            ln["res"]["ok"], ln["res"]["err"] = True, ""
+            return True
+    return False
+
+
 def m_c09(cl):
     """The last hashed log's stored hash is reproduced from no predecessor."""
     for ln in reversed(cl):
@@ -249,6 +259,7 @@ def m_c09(cl):
 
 
 CONTROLS = {
+    "C06": ("Step_C25_Funds", m_c06),
     "C09": ("Inv_C09_HashChain", m_c09),
     "C34": ("Inv_C34_BlockChain", m_c34),
     "C11": ("Step_C11_ImportFaithful", m_c11),
